@@ -1,4 +1,4 @@
-import Driver.Codec
+import Driver.Tree
 /-
   Driver.Main — `lsmdrv`: one request per line on stdin, one canonical answer per line on stdout.
   The answers are computed by the very definitions the theorems in `LsmModel/Props` are about.
@@ -56,7 +56,7 @@ def parseHist (s : String) : Option (History BK) :=
     | [sq, vid] => do
       let sq ← sq.toNat?
       let vid ← vid.toNat?
-      pure ({ active := { id := 0, entries := [] }, sealed := [], version := Version.empty vid, seqno := sq } : SuperVersion BK)
+      pure ({ active := 0, sealed := [], version := Version.empty vid, seqno := sq } : SuperVersion BK)
     | _ => none)
 
 def showHist (h : History BK) : String :=
@@ -80,12 +80,6 @@ def parseFifoTable (s : String) : Option FifoTable :=
   match (s.splitOn ":").mapM (·.toNat?) with
   | some [i, c, sz, b] => some { id := i, createdAt := c, fileSize := sz, blobBytes := b }
   | _ => none
-
-def showChoice : Choice → String
-  | .doNothing => "nothing"
-  | .move ids d => "move=" ++ showIds ids ++ " dest=" ++ toString d
-  | .merge ids d => "merge=" ++ showIds ids ++ " dest=" ++ toString d
-  | .drop ids => "drop=" ++ showIds ids
 
 def fnFifo (a : List (String × String)) : String :=
   match (arg a "limit").bind (·.toNat?), arg a "ttl", (arg a "now").bind (·.toNat?), (arg a "dbsize").bind (·.toNat?),
@@ -128,11 +122,24 @@ def fnVt (a : List (String × String)) : String :=
     | none => "invalid"
   | none => bad "vt"
 
-def handle (line : String) : String :=
+def treeCmds : List String := ["write", "rotate", "flush", "merge", "move", "drop", "clear", "ingest", "reopen"]
+def treeQueries : List String := ["get", "scan", "admissible", "choose", "hwm", "digest", "dump"]
+
+def handle (t : TS) (line : String) : TS × String :=
   match line.trimAscii.toString.splitOn " " with
-  | [] => bad "empty"
+  | [] => (t, bad "empty")
   | cmd :: rest =>
     let a := parseArgs rest
+    if cmd == "new" then
+      let t' : TS := TreeState.init ((natArg a "levels").getD 7)
+      (t', stateReply t')
+    else if treeCmds.contains cmd then
+      match stepTree t cmd a with
+      | some t' => (t', stateReply t')
+      | none => (t, "reject " ++ cmd)
+    else if treeQueries.contains cmd then (t, queryTree t cmd a)
+    else (t, handlePure cmd a)
+where handlePure (cmd : String) (a : List (String × String)) : String :=
     match cmd with
     | "hello" => "ok lsmdrv 1"
     | "cstream" => fnCstream false a
@@ -153,14 +160,15 @@ def handle (line : String) : String :=
     | "vt" => fnVt a
     | _ => bad ("unknown-command " ++ cmd)
 
-partial def loop (hin : IO.FS.Stream) (hout : IO.FS.Stream) : IO Unit := do
+partial def loop (hin : IO.FS.Stream) (hout : IO.FS.Stream) (t : TS) : IO Unit := do
   let line ← hin.getLine
   if line.isEmpty then return ()
-  hout.putStrLn (handle line)
+  let (t', out) := handle t line
+  hout.putStrLn out
   hout.flush
-  loop hin hout
+  loop hin hout t'
 
 end Drv
 
 def main : IO Unit := do
-  Drv.loop (← IO.getStdin) (← IO.getStdout)
+  Drv.loop (← IO.getStdin) (← IO.getStdout) Lsm.TreeState.init
